@@ -61,9 +61,10 @@ def cases(chk):
             base = {"F": [F[0]] * T, "bounds": [bounds[0]] * T, "dens": [base["dens"][0]] * T, "sizes": [2, 3, 4][:T], "shared_callable": True}
         cs.append(dict(base, kind="marginal"))
         if i % 3 == 0 and T <= 2:
-            cs.append(dict(base, kind="marginal_sample1"))
+            cs.append(dict(base, kind="marginal_sample1", via=["direct", "entry"][len(cs) % 2]))
         if i % 3 == 1:
-            cs.append(dict(base, kind="marginal_freq", n_samples=rng.choice([1, 2, 3, 5, 40]), seed=rng.randrange(1 << 30)))
+            cs.append(dict(base, kind="marginal_freq", n_samples=rng.choice([1, 2, 3, 5, 40]), seed=rng.randrange(1 << 30),
+                           via=rng.choice(["direct", "entry"])))
     return cs
 
 
